@@ -805,3 +805,26 @@ Check C01_text_statement_arms_unreachable : forall fuel text s' cf t,
                  (Blots.Pratt.pratt_impl (map (Blots.PegToItems.conv text cf) (Blots.PegToItems.tkids first))))
      \/ Blots.TextRun.text_stmt_of text cf t = Some (Blots.TextRun.TStmt SComment)).
 Print Assumptions C01_text_statement_arms_unreachable.
+
+(* kept, NOT proved (PF1): the remaining explicit Panic arms of the text layer are unreachable on parsed texts.
+   (1) the Panic arms inside Pratt.v (empty token stream; infix / postfix operator or unknown pair in operand
+       position; operand where an operator is expected; rule missing from the table or the closure maps;
+       map_postfix / primary on a pair of the wrong kind) need the operand / operator alternation of the pairs
+       under `expression` (grammar rule: prefix operators, term, postfix operators, repeated with an infix operator between) as a
+       PegShape.kids_spec-style theorem, hereditarily through PegToItems.conv;
+   (2) the PEG engine's `expect` on an empty stack (PEEK / POP; TParsePanic) needs the PUSH-before-PEEK/POP
+       invariant of the one rule that uses the stack (string).
+   Both are counted by the TEXT-EVAL / PARSE-text streams of ./check C01 and ./check C10 (0 on every run). *)
+Definition C01_text_pratt_no_panic_on_parsed_full : Prop := forall text s' t first rest,
+  Blots.Peg.parse Blots.gen.Grammar.blots_grammar (Blots.Peg.peg_fuel text) Blots.gen.Grammar.PG_input text
+    = Blots.Peg.Ok s' ->
+  In t (rev (Blots.Peg.out s')) -> Blots.PegToItems.is_rule Blots.gen.Grammar.PG_statement t = true ->
+  Blots.PegToItems.tkids t = first :: rest ->
+  Blots.PegToItems.trule first = Blots.gen.Grammar.PG_expression
+  \/ Blots.PegToItems.trule first = Blots.gen.Grammar.PG_output_declaration ->
+  Blots.Pratt.pratt_impl
+    (map (Blots.PegToItems.conv text (Blots.TextRun.forest_conv_fuel (rev (Blots.Peg.out s'))))
+         (Blots.PegToItems.tkids first)) <> Outcome.Panic.
+Definition C01_text_peg_no_panic_full : Prop := forall text,
+  Blots.Peg.parse Blots.gen.Grammar.blots_grammar (Blots.Peg.peg_fuel text) Blots.gen.Grammar.PG_input text
+    <> Blots.Peg.Panic.
